@@ -2,6 +2,9 @@ package h
 
 import (
 	"bytes"
+	"encoding/hex"
+	"encoding/json"
+	"os"
 	"errors"
 	"fmt"
 	"math/rand/v2"
@@ -103,6 +106,85 @@ type ckptRec struct {
 	handle recovery.CheckpointHandle
 	snap   map[string]string
 	db     int // instance that took it
+	files  map[string]string // referenced file URI -> content fingerprint at checkpoint time
+}
+
+// ckptDoc mirrors the on-disk checkpoints document, parsed independently of
+// the repository's recovery package.
+type ckptDoc struct {
+	Checkpoints []struct {
+		ID   uint64 `json:"id"`
+		WALs []struct {
+			URI string `json:"uri"`
+		} `json:"wals"`
+		Levels [][]struct{ URI string } `json:"levels"`
+	} `json:"checkpoints"`
+}
+
+func fingerprint(b []byte) string {
+	h := uint64(14695981039346656037)
+	for _, c := range b {
+		h ^= uint64(c)
+		h *= 1099511628211
+	}
+	return fmt.Sprintf("%d:%x", len(b), h)
+}
+
+// referencedFiles lists the files checkpoint id references according to the
+// checkpoints document currently stored at uri.
+func (r *dkvRun) referencedFiles(uri string, id uint64) (files []string, found bool, err error) {
+	raw, ok := r.disk.ReadRaw(uri)
+	if !ok {
+		return nil, false, fmt.Errorf("checkpoints document %s does not exist (deleted by %q)", uri, r.disk.WhoDeleted(uri))
+	}
+	var doc ckptDoc
+	if err := json.Unmarshal(raw, &doc); err != nil {
+		return nil, false, fmt.Errorf("checkpoints document %s unparsable: %v", uri, err)
+	}
+	for _, cp := range doc.Checkpoints {
+		if cp.ID != id {
+			continue
+		}
+		for _, w := range cp.WALs {
+			files = append(files, w.URI)
+		}
+		for _, l := range cp.Levels {
+			for _, t := range l {
+				files = append(files, t.URI)
+			}
+		}
+		return files, true, nil
+	}
+	return nil, false, nil
+}
+
+// precheckRestore verifies, before handing the checkpoint to the DB, that it is
+// still listed and that every file it references exists with the content it
+// had when the checkpoint completed (a DB fed a replaced table file can die in
+// an unrecoverable way, e.g. a multi-gigabyte allocation from a garbage footer).
+func (r *dkvRun) precheckRestore(ck *ckptRec, opIdx int) bool {
+	c := r.c
+	files, found, err := r.referencedFiles(ck.handle.URI, ck.id)
+	if err != nil {
+		c.Violate(c.Prop+"/restore-file-missing", "op %d retained checkpoint %d: %v", opIdx, ck.id, err)
+		return false
+	}
+	if !found {
+		c.Violate(c.Prop+"/checkpoint-not-listed", "op %d retained checkpoint %d is no longer listed in %s", opIdx, ck.id, ck.handle.URI)
+		return false
+	}
+	for _, f := range files {
+		b, ok := r.disk.ReadRaw(f)
+		if !ok {
+			c.Violate(c.Prop+"/restore-file-missing", "op %d retained checkpoint %d references %s which no longer exists (deleted by %q)", opIdx, ck.id, f, r.disk.WhoDeleted(f))
+			return false
+		}
+		if want, had := ck.files[f]; had && want != fingerprint(b) {
+			c.Violate(c.Prop+"/restore-file-overwritten", "op %d retained checkpoint %d references %s whose content was replaced after the checkpoint (was %s now %s, last written by %q)", opIdx, ck.id, f, want, fingerprint(b), r.disk.WhoWrote(f))
+			return false
+		}
+	}
+	return true
 }
 
 type dkvInst struct {
@@ -122,6 +204,8 @@ type dkvRun struct {
 	opIdx int
 	tuned dkv.DBOptions
 }
+
+var dbgDisk *sim.Disk
 
 var tableCountRe = regexp.MustCompile(`level (\d+), tables (\d+)`)
 var memCountRe = regexp.MustCompile(`MemTables \(num: (\d+)\)`)
@@ -193,6 +277,7 @@ func (r *dkvRun) open(handles []recovery.CheckpointHandle, sameDirAs *dkvInst, v
 	if len(verifier) > 0 && verifier[0] {
 		opts.DataOwnership = &sharedOwnership{}
 	}
+	simrt.SetGroup(inst.node)
 	inst.db = dkv.Open(opts, handles)
 	r.insts = append(r.insts, inst)
 	return inst, nil
@@ -231,7 +316,8 @@ func (r *dkvRun) checkAgainst(db *dkv.DB, model map[string]string, class, what s
 			return false
 		}
 	}
-	for k, v := range model {
+	for _, k := range sortedKeys(model) {
+		v := model[k]
 		if g, ok := got[k]; !ok {
 			r.c.Violate(class+"-missing", "%s: scan misses live key %q (want %q)", what, k, v)
 			return false
@@ -240,7 +326,8 @@ func (r *dkvRun) checkAgainst(db *dkv.DB, model map[string]string, class, what s
 			return false
 		}
 	}
-	for k, g := range got {
+	for _, k := range sortedKeys(got) {
+		g := got[k]
 		if _, ok := model[k]; !ok {
 			r.c.Violate(class+"-resurrect", "%s: scan returns key %q = %q which is deleted/absent", what, k, g)
 			return false
@@ -270,6 +357,15 @@ func (r *dkvRun) checkAgainst(db *dkv.DB, model map[string]string, class, what s
 		}
 	}
 	return true
+}
+
+func sortedKeys(m map[string]string) []string {
+	ks := make([]string, 0, len(m))
+	for k := range m {
+		ks = append(ks, k)
+	}
+	sort.Strings(ks)
+	return ks
 }
 
 func copyModel(m map[string]string) map[string]string {
@@ -303,8 +399,24 @@ func gcStep(disk *sim.Disk) int {
 
 func bodyDKV(c *sim.Ctx) {
 	prop := c.Prop
+	if os.Getenv("VERIF_DEBUG") != "" {
+		defer func() {
+			if !c.Violated() {
+				return
+			}
+			// debugging aid only
+			for _, p := range dbgDisk.Paths() {
+				b, _ := dbgDisk.ReadRaw(p)
+				if strings.HasSuffix(p, ".sst") && len(b) > 4120 {
+					b = b[:len(b)-4120]
+				}
+				fmt.Fprintf(os.Stderr, "FILE %s (%d bytes)\n%s\n", p, len(b), hex.Dump(b[:min(len(b), 400)]))
+			}
+		}()
+	}
 	installDKVHooks(c)
 	r := &dkvRun{c: c, disk: sim.NewDisk(c)}
+	dbgDisk = r.disk
 	inst, err := r.open(nil, nil)
 	if err != nil {
 		c.Violate(prop+"/open-failed", "%v", err)
@@ -319,6 +431,7 @@ func bodyDKV(c *sim.Ctx) {
 		r.opIdx = i
 		simrt.Yield("op:" + op.K)
 		cur := r.cur
+		simrt.SetGroup(cur.node) // goroutines the DB spawns during this call belong to its process
 		switch op.K {
 		case "put":
 			k := key(op.Arg(0))
@@ -350,6 +463,12 @@ func bodyDKV(c *sim.Ctx) {
 			got, order, err := readAll(cur.db, pfx)
 			if err != nil {
 				c.Violate(prop+"/scan-error", "op %d ScanPrefix(%q): %v", i, pfx, err)
+				if os.Getenv("VERIF_DEBUG") != "" {
+					for _, p := range r.disk.Paths() {
+						b, _ := r.disk.ReadRaw(p)
+						fmt.Fprintf(os.Stderr, "FILE %s (%d bytes)\n%s\n", p, len(b), hex.Dump(b))
+					}
+				}
 				break
 			}
 			var want []string
@@ -385,7 +504,20 @@ func bodyDKV(c *sim.Ctx) {
 				c.Violate(prop+"/checkpoint-error", "op %d Checkpoint(%d): %v", i, id, err)
 				break
 			}
-			cur.ckpts = append(cur.ckpts, &ckptRec{id: id, handle: h, snap: snap})
+			rec := &ckptRec{id: id, handle: h, snap: snap, files: map[string]string{}}
+			files, found, ferr := r.referencedFiles(h.URI, id)
+			if ferr != nil || !found {
+				c.Violate(prop+"/checkpoint-not-listed", "op %d completed checkpoint %d is not in its own document %s (%v)", i, id, h.URI, ferr)
+				break
+			}
+			for _, f := range files {
+				if b, ok := r.disk.ReadRaw(f); ok {
+					rec.files[f] = fingerprint(b)
+				} else {
+					c.Violate(prop+"/restore-file-missing", "op %d completed checkpoint %d references %s which does not exist (deleted by %q)", i, id, f, r.disk.WhoDeleted(f))
+				}
+			}
+			cur.ckpts = append(cur.ckpts, rec)
 			c.Probe("checkpoint")
 		case "verify":
 			if len(cur.ckpts) == 0 {
@@ -400,15 +532,27 @@ func bodyDKV(c *sim.Ctx) {
 			ck := cur.ckpts[int(op.Arg(0))%len(cur.ckpts)]
 			// crash: the current instance is abandoned at whatever its background
 			// tasks are doing; only published files survive
+			if !r.precheckRestore(ck, i) {
+				break
+			}
 			var same *dkvInst
 			if op.Arg(1) == 1 {
 				// redeploy in the same process (an operator that survives a job
 				// restart): same directory, the old DB object becomes garbage
 				same = cur
 				c.Probe("redeploy-same-process")
+				// what Operator.HandleDeploy does with its previous database
+				if err := cur.db.Close(); err != nil {
+					c.Violate(prop+"/background-task-error", "op %d Close before redeploy: %v", i, err)
+					break
+				}
 			} else {
+				c.S.KillGroup(cur.node)
 				r.disk.Kill(cur.node)
 				c.Fault("crash")
+				// a new process has fresh package-level queues (the crashed one may
+				// be parked for ever inside a task that holds the queue's lock)
+				dkv.VerifResetQueues()
 			}
 			ni, err := r.open([]recovery.CheckpointHandle{ck.handle}, same)
 			if err != nil {
@@ -451,13 +595,14 @@ func bodyDKV(c *sim.Ctx) {
 		}
 		c.OpDone()
 		if i%8 == 0 {
-			states[r.abstractState(cur.db)] = true
+			states[r.abstractState(r.cur.db)] = true
 		}
 	}
 	if c.Violated() {
 		return
 	}
 	// quiesce and check everything once more
+	simrt.SetGroup(r.cur.node)
 	if err := r.cur.db.WaitOnTasks(); err != nil {
 		c.Violate(prop+"/background-task-error", "WaitOnTasks: %v", err)
 		return
@@ -476,6 +621,7 @@ func bodyDKV(c *sim.Ctx) {
 			}
 		}
 	}
+	_ = 0
 	var ss []string
 	for s := range states {
 		ss = append(ss, s)
@@ -496,6 +642,9 @@ func (r *dkvRun) missingInfo() string {
 // exactly the snapshot taken at the Checkpoint call.
 func (r *dkvRun) verifyRestore(ck *ckptRec, opIdx int) bool {
 	c := r.c
+	if !r.precheckRestore(ck, opIdx) {
+		return false
+	}
 	ni, err := r.open([]recovery.CheckpointHandle{ck.handle}, nil, true)
 	if err != nil {
 		class := c.Prop + "/restore-failed"
@@ -507,7 +656,12 @@ func (r *dkvRun) verifyRestore(ck *ckptRec, opIdx int) bool {
 	}
 	c.Probe("verify-restore")
 	ok := r.checkAgainst(ni.db, ck.snap, c.Prop+"/restore", fmt.Sprintf("op %d restored checkpoint %d", opIdx, ck.id))
-	// the verification instance is dropped again (it never wrote anything)
-	r.disk.Kill(ni.node)
+	// the verification instance is dropped again; let its own background work
+	// (flushes triggered by WAL replay) finish first, because the flush queue is
+	// package-level state it shares with the database under test
+	if err := ni.db.WaitOnTasks(); err != nil && ok {
+		c.Violate(c.Prop+"/background-task-error", "restored instance: WaitOnTasks: %v", err)
+		return false
+	}
 	return ok
 }
